@@ -1,2 +1,42 @@
-(** Theorems for C04: filled in below as the proofs land. *)
-From JL Require Import Base.Json.
+(** * C04: only rule text is executed: data and computed values are never re-interpreted.
+    Statements only; proofs are in Proofs/Refine.v and Proofs/OpsCorrect.v.
+
+    [ref_eval] (Spec/RefEval.v) recurses on the rule's syntax only: by construction it can never
+    interpret a value read from the data, a default, or a computed value as logic.  The master
+    theorem says the model of the implementation (two-phase parser + fuel-driven evaluator,
+    lazy operators handing rule text back to the parser) computes exactly what it computes.
+
+    The two hypotheses are the scanner lemmas of Proofs/Scan.v (the hand-written scanners of
+    js_op.rs recognise the ECMAScript StringNumericLiteral / StrDecimalLiteral grammars); the
+    theorems are named _partial while they are carried as hypotheses. *)
+From Coq Require Import List.
+From JL Require Import Base.Json Base.Dec2Flt Base.Monad Model.Eval Spec.Specs Spec.RefEval.
+From JL Require Import Proofs.MonadLaws Proofs.OpsCorrect Proofs.Totality.
+From Coq Require Import String NArith ZArith.
+Local Open Scope string_scope.
+Import ListNotations.
+
+Definition scanner_lemmas : Prop :=
+  (forall s, str_to_number s = es_str_to_number s) /\
+  (forall s, parse_float_string s = es_parse_float_str s).
+
+Theorem C04_single_pass_partial :
+  scanner_lemmas ->
+  forall n r d, vdepth r < n -> meq (apply_fuel n r d) (ref_eval r d).
+Proof. intros [H1 H2]. exact (model_refines_reference H1 H2). Qed.
+Print Assumptions C04_single_pass_partial.
+
+(** in particular for the budget [apply] uses *)
+Theorem C04_apply_is_reference_partial :
+  scanner_lemmas -> forall r d, meq (apply r d) (ref_eval r d).
+Proof.
+  intros [H1 H2] r d. unfold apply. apply (model_refines_reference H1 H2). unfold default_fuel. auto with arith.
+Qed.
+Print Assumptions C04_apply_is_reference_partial.
+
+(** data is inert even when it looks like an operation: the witnesses of the repaired defects *)
+Example C04_data_is_inert :
+  let secret := Obj [(lit "secret", Num (PosInt 42%N)); (lit "x", Obj [(lit "var", Str (lit "secret"))])] in
+  snd (apply (Obj [(lit "var", Arr [Str (lit "nope"); Obj [(lit "var", Str (lit "x"))]])]) secret)
+  = Ok (Obj [(lit "var", Str (lit "secret"))]).
+Proof. vm_compute. reflexivity. Qed.
